@@ -276,14 +276,15 @@ def stripStringPrefix (o : Str) : Str :=
 
 /-- (start, end, append_end) as `_complete_path_raw` derives them (`_path_from_partial_string`):
 `o` = the opening quote the user typed (with its prefix letters, `""` for none), `typedEmpty` = nothing
-typed after it.  A lone NON-raw opening quote is not recognised as an opened string, and the test for
-"the closing quote is already there" compares ONE character with the whole closing quote. -/
-def seenStyle (o : Str) (typedEmpty : Bool) (m : Mode) : Str × Str × Bool :=
+typed after it.  A lone NON-raw opening quote is not recognised as an opened string.  The test for "the
+closing quote is already there" compares ONE character with the whole closing quote (so it never holds of
+a triple quote) — unless `wholeQuote`, the repaired variant that compares the whole quote. -/
+def seenStyle (wholeQuote : Bool) (o : Str) (typedEmpty : Bool) (m : Mode) : Str × Str × Bool :=
   if o.isEmpty then ([], [], true)
   else if loneQuote o typedEmpty m then ([], [], true)
   else
     let e := stripStringPrefix o
-    (o, e, !(m == .closedInside && e.length == 1))
+    (o, e, !(m == .closedInside && (e.length == 1 || wholeQuote)))
 
 /-- what stays in the line right after the inserted text -/
 def lineTail (o : Str) (m : Mode) : Str :=
@@ -456,13 +457,18 @@ def escapedCtrl : List Char := ['\n', '\t', '\r', Char.ofNat 0x0c, Char.ofNat 0x
 
 def when (b : Bool) (c : Cls) : List Cls := if b then [c] else []
 
+/-- does `_CONTROL_CHAR_ESCAPE` escape `c`?  The documented five; `sepEscaped` = the repaired variant whose table
+also escapes the six remaining line boundaries (as `\\x1c` … `\\u2029`). -/
+def isCtrl (sepEscaped : Bool) (c : Char) : Bool :=
+  escapedCtrl.contains c || (sepEscaped && unescapedBreaks.contains c)
+
 /-- the classes that depend on the quoting style `_quote_paths` ends up with for the candidate -/
-def styleClasses (T : Tables) (E : Env) (name start0 end0 : Str) (isDirFs : Bool) : List Cls :=
+def styleClasses (T : Tables) (E : Env) (sepEscaped : Bool) (name start0 end0 : Str) (isDirFs : Bool) : List Cls :=
   let s := normName name
   let auto := start0.isEmpty && needsQuotes T s
   let start := if auto then quoteToUseRef s else start0
   let end_ := if auto then quoteToUseRef s else end0
-  let ctrl := s.any fun c => escapedCtrl.contains c
+  let ctrl := s.any (isCtrl sepEscaped)
   let needsRaw := (s.contains bs || s.contains '$') && !ctrl
   let raw := isRawStart start || (!start.isEmpty && needsRaw)
   let isDir := isDirEff T E name s isDirFs
@@ -485,15 +491,17 @@ def styleClasses (T : Tables) (E : Env) (name start0 end0 : Str) (isDirFs : Bool
     when (expandVars T E v == v && expandPath T E v != v) .tildeExpansion ++
     when (end_.length == 3 && !isDir && s.getLast? == some q) .tripleQuoteEnd
 
-def classify (T : Tables) (E : Env) (name o : Str) (typedEmpty : Bool) (m : Mode) (isDirFs : Bool) : List Cls :=
+def classify (T : Tables) (E : Env) (wholeQuote sepEscaped : Bool) (name o : Str) (typedEmpty : Bool) (m : Mode)
+    (isDirFs : Bool) : List Cls :=
   let s := normName name
-  let sty := seenStyle o typedEmpty m
+  let sty := seenStyle wholeQuote o typedEmpty m
   -- is the regular candidate offered at all? (the `~` special case may replace it by r'~')
   let offered := !tildeSpecial name sty.1 || tildeKeeps (regular T E name sty.1 sty.2.1 isDirFs sty.2.2)
   when (s != name) .trailingSpace ++
-  when (s.any fun c => unescapedBreaks.contains c) .lineSeparator ++
-  (if offered then styleClasses T E name sty.1 sty.2.1 isDirFs else []) ++
-  when (m == .closedInside && !loneQuote o typedEmpty m && (stripStringPrefix o).length == 3) .tripleCursorInside ++
+  when (!sepEscaped && s.any fun c => unescapedBreaks.contains c) .lineSeparator ++
+  (if offered then styleClasses T E sepEscaped name sty.1 sty.2.1 isDirFs else []) ++
+  when (!wholeQuote && m == .closedInside && !loneQuote o typedEmpty m && (stripStringPrefix o).length == 3)
+    .tripleCursorInside ++
   when (m == .closedInside && loneQuote o typedEmpty m) .loneQuoteInside ++
   -- the r'~' entry of the `~` special case always brings its own closing quote
   when (m == .closedInside && !loneQuote o typedEmpty m && tildeSpecial name sty.1 && !o.isEmpty) .tildeCursorInside
